@@ -356,6 +356,32 @@ def rule_r6(ctx: Context, R: Reporter):
                         msg=f"{fi.short}: `{what}` is set to `{unparse(val)[:60]}`: the seed is transformed before it reaches the seeding call; a many-to-one map (modulus, hash, "
                             f"mask) makes distinct seeds give identical runs (e.g. s and s + 2**31 - 1)", key=f"seed-transformed:{fi.short}")
     R.floor("C09.r6", "places where the seed is stored or passed by name", n, 2)
+    # the seed written into a checkpoint (and used to re-seed on load) is the configured one; decided on the form in
+    # which loops over literal tables are written out (`for attr in ("random_state", ...): d[attr] = getattr(self, attr, None)`)
+    from .. import normalize as _nz
+    from ..engine import Context as _Ctx
+    from ..model import Program as _Prog
+
+    cx = ctx
+    try:
+        nsrc, what = _nz.normalize_sources(ctx.prog.sources)
+        if any("literal-table" in w for w in what):
+            cx = _Ctx(_Prog(None, sources=nsrc))
+    except Exception:  # the normaliser must never turn into an alarm
+        cx = ctx
+    T = Tracer(cx)
+    n_ck = 0
+    for fi in cx.prog.functions.values():
+        for x in walk_no_nested(fi.node):
+            if isinstance(x, ast.Assign) and len(x.targets) == 1 and isinstance(x.targets[0], ast.Subscript) and isinstance(x.targets[0].slice, ast.Constant) and x.targets[0].slice.value in names:
+                n_ck += 1
+                at = flow_of(fi.node).node_containing(x)
+                origs = T.origins(fi, x.value, at)
+                ok = any(o.kind == "user" for o in origs) and not any(o.kind in ("unknown", "literal") for o in origs)
+                R.check("C09.r6", "the seed recorded in a checkpoint is the configured seed", ok, fi, x,
+                        msg=f"{fi.short}: `{unparse(x)[:70]}` records {[repr(o)[:60] for o in origs][:3]} as the seed: it is not the configured random_state (e.g. an attribute that "
+                            f"does not exist on this object, read with a None default), so a run resumed from the checkpoint is not re-seeded / not reproducible", key=f"checkpoint-seed:{fi.short}")
+    R.analysed["C09.r6:checkpoint seed stores"] = n_ck
 
 
 def run(ctx: Context, R: Reporter):
